@@ -24,6 +24,12 @@ def run(ctx):
     for k in range(2 if q else 8):
         add("plain" if k % 2 else "hi", fam="degen", n=300 if q else 1500, emb="0,1,3,4", npts=30, cfg="batch", reunion=0, seed=s * 100 + 50 + k)
     add("plain", fam="ladder", emb="0", npts=40, cfg="batch", reunion=1, seed=s)
+    for k in range(6 if q else 24):    # larger and negative coordinates (R = 128, lattice shifted by -64 / -128): thin crossings, truncation of negative values
+        add("plain" if k % 2 == 0 else "hi", fam="gps", n=25 if q else 120, emb="0", npts=40, cfg="batch", reunion=1, seed=s * 1000 + 300 + k, R=128, off=[-64, -128, -100][k % 3], maxpaths=2, maxv=[4, 5, 6][k % 3])
+    for k in range(8 if q else 32):    # coordinates ~1000 incl. negative ones (general position certified natively, see BoolTrace): rounding of thin crossings
+        add("plain" if k % 2 == 0 else "hi", fam="gps", n=500 if q else 2000, emb="0", npts=24, cfg="batchlite", reunion=0, seed=s * 1000 + 600 + k, R=1000, off=-500, gpcert=1, maxpaths=1, maxv=[3, 4, 4][k % 3])
+    for k in range(4 if q else 16):    # many rectangles with coincident horizontals (horizontal joins)
+        add("plain", fam="rects", n=1200 if q else 6000, grid=[3, 4, 5][k % 3], emb="0", cfg="batchlite", reunion=1, seed=s * 100 + 70 + k)
     jobs = boolfam.run_jobs(ctx, J)
     boolfam.tally(ctx, jobs)
     boolfam.validate(ctx, jobs)
